@@ -74,6 +74,18 @@ def main():
         rc, out = run(["git", "-C", "/repo", "apply", patch], "/repo")
         if rc != 0:
             rc, out = run(["git", "-C", "/repo", "apply", "--3way", patch], "/repo")
+        if rc != 0:
+            # a later fix changed the same lines: keep the stored result, only note it
+            run(["git", "-C", "/repo", "checkout", "--", "."], "/repo")
+            run(["git", "-C", "/repo", "reset", "-q"], "/repo")
+            mp = os.path.join("/verif/seeded", sid, "meta.json")
+            if os.path.exists(mp):
+                m = json.load(open(mp))
+                head = run(["git", "-C", "/repo", "rev-parse", "--short", "HEAD"], "/repo")[1].strip()
+                m["check_result_note"] = "patch no longer applies to /repo HEAD %s (the same lines were changed by a later fix); check_result is from the last HEAD it applied to" % head
+                json.dump(m, open(mp, "w"), indent=1)
+            print("PATCH NO LONGER APPLIES", sid)
+            return 0
         claimed = [c["property_id"] for c in json.load(open("/verif/MANIFEST.json"))["checks"]]
         rc, out = run(["/verif/bin/gaeacheck", "-prop", ",".join(claimed), "-no-evidence"], "/verif")
         cur = None
@@ -94,12 +106,16 @@ def main():
     out_dir = os.path.join("/verif/seeded", sid)
     if log["confirmed"]:
         os.makedirs(out_dir, exist_ok=True)
-        shutil.copy(patch, os.path.join(out_dir, "patch.diff"))
-        for d in demos:
-            shutil.copy(d, os.path.join(out_dir, os.path.basename(d)))
+        if os.path.abspath(sd) != os.path.abspath(out_dir):
+            shutil.copy(patch, os.path.join(out_dir, "patch.diff"))
+            for d in demos:
+                shutil.copy(d, os.path.join(out_dir, os.path.basename(d)))
         m = dict(meta)
         m["seed_id"] = sid
-        m["confirmed_by_me"] = {k: log.get(k) for k in ("builds", "suite_passes_with_change", "demo_fails_with_change", "demo_passes_without_change")}
+        if skip_confirm and meta.get("confirmed_by_me"):
+            m["confirmed_by_me"] = meta["confirmed_by_me"]
+        else:
+            m["confirmed_by_me"] = {k: log.get(k) for k in ("builds", "suite_passes_with_change", "demo_fails_with_change", "demo_passes_without_change")}
         m["what_i_ran"] = ["git apply patch.diff in a scratch worktree of /repo HEAD; go build ./...; python3 tools/suite.py <worktree> (1863 stable tests)",
                            demo_cmd + "  (with the change: fails; after git apply -R: passes)",
                            "git -C /repo apply patch.diff; ./check.sh %s quick and gaeacheck on every claimed property; git -C /repo checkout -- ." % prop]
